@@ -511,3 +511,30 @@ package iam
 //@   prop C17
 //@   ensures [resolves-the-tokens-own-kid] signerKid == kid && did(call (resolver.KeyResolver).ResolveKeyByID #1) && arg(call (resolver.KeyResolver).ResolveKeyByID #1, 1) == kid
 //@        && arg(call (resolver.KeyResolver).ResolveKeyByID #1, 3) == resolver.AssertionMethod && result.0 == ret(call (resolver.KeyResolver).ResolveKeyByID #1).0 && publicKey == result.0
+
+// ---- C19: request parameters that are JSON documents ----
+// json.Unmarshal of the JSON value null into a pointer succeeds and leaves the pointer nil: without an
+// error the caller gets client metadata / a presentation definition it can dereference. A definition
+// passed by value goes through pe.ParsePresentationDefinition (the JSON schema) like any other.
+// ASSUMED for the IAM client (auth/client/iam, not under contract): a nil error comes with a non-nil result.
+//@ func (iam.Client).ClientMetadata
+//@   trusted
+//@   benign
+//@   ensures isNilIface(result.1) ==> result.0 != nil
+//@ func (iam.Client).PresentationDefinition
+//@   trusted
+//@   benign
+//@   ensures isNilIface(result.1) ==> result.0 != nil
+//@ func (Wrapper).getClientMetadataFromRequest
+//@   prop C19
+//@   safety
+//@   assume-benign
+//@   ensures [metadata-or-error] result.1 == nil ==> result.0 != nil
+//@ func (Wrapper).getPresentationDefinitionFromRequest
+//@   prop C19
+//@   safety
+//@   assume-benign
+//@   ensures [definition-or-error] result.1 == nil ==> result.0 != nil
+//@   ensures [a-definition-is-parsed-against-the-schema-or-retrieved] result.1 == nil ==>
+//@        (did(call pe.ParsePresentationDefinition #1) && isNilIface(ret(call pe.ParsePresentationDefinition #1).1) && result.0 == ret(call pe.ParsePresentationDefinition #1).0)
+//@        || (did(call (iam.Client).PresentationDefinition #1) && isNilIface(ret(call (iam.Client).PresentationDefinition #1).1) && result.0 == ret(call (iam.Client).PresentationDefinition #1).0)
